@@ -26,6 +26,11 @@ var verifCorpus = [...]string{
 	"a # b\x01\nc", "# a\n# b\x01\nc # d\n# e\n", "case a in\nb)\n\tc\n\t;;\n\t#d\n#e\x01\n\t#f\ng) ;;\nesac", "case a in\n#b\x01\n#c\nd) ;; #e\n#f\nesac", "a=(\n\tb # c\x01\n\t# d\n\t# e\n)", "a=(\n\t# b\n\t# c\x01\n\td\n)", "if a; then # b\x01\n\t# c\n\td\nfi # e", "{ # a\x01\n\tb # c\n\t# d\n}", "for i in a # b\x01\ndo c; done",
 	"echo $((a[\x011]))", "echo $((a\x01b))", "echo $((a\x01\x01))", "let a[1]\x01=2", "((a[\x01]++))",
 	"cat <<-EOF\n\t$(a |\n\tb\x01)\n\tEOF\n", "cat <<-EOF\n\t$(if a; then\n\tb\x01; fi)\n\tEOF\n", "cat <<-EOF\n\t${a:-$(b\x01 |\n\tc)}\n\tEOF\ncat <<-E2\n\t$(d |\n\te)\n\tE2\n",
+	"${a,\x01}", "${a\x01,}", "${a^\x01b}", "${a\x01^}", "${a@\x01}", "${a\x01Q}",
+	// empty quoted strings, unfinished arithmetic and case items (error recovery)
+	"[[ -n \"\"\x01 ]]", "[[ \"\" != $x\x01 ]]", "[[ $x -eq \"\"\x01 ]]", "[ -z \"\"\x01 ]", "echo \"\"\x01 ''", "a=\"\"\x01", "${a:-\"\"\x01}", "[[ \"\"\x01 ]]",
+	"<<$b[\x01\n", "<<$b[ar\x01\n$bar", "a=$((b c=d\x01", "foo=$(((1 2)\x01", "b+=$(((2 3)\x01", "case a in (\x01", "case $i in (#1) \x01", "a=$[b c=\x01", "if a; then b; elif c\x01 d; fi",
+	"cat <<EOF\n$(a # x\x01\n)\nEOF\n# y\n", "cat <<EOF\n$(a #x\n)\nEOF\nb # y\x01\n", "{\n\tcat <<EOF\n$(a #x\x01\n)\nEOF\n\t# y\n}", "foo | cat <<EOF # c\x01\nbody\nEOF\n", "foo && cat <<EOF # c\x01\nbody\nEOF\n", "cat <<EOF # c\x01\nbody\nEOF\n",
 	"coproc a { b\x01 }", "time a\x01 b", "select i in a\x01 do b; done", "a() ( b\x01 )", "eval \"a\x01\"", "trap 'a\x01' EXIT", "((a\x01))", "(( a ? b \x01 c ))", "$[a\x01b]",
 }
 
